@@ -449,7 +449,10 @@ def location_cases(draw, dim):
         kind = draw(st.sampled_from(["in", "in", "face", "face", "edge", "node"]))
         queries.append([draw(st.integers(0, 3)), draw(st.integers(0, 9999)), kind] +
                        [draw(st.integers(0, 15)) for _ in range(5)])
-    return dict(recipe=r, para=para, warp=warp, ops=ops, deg=deg, coefs=coefs, queries=queries, allow_cluster=False)
+    # elem_arg: the batch is evaluated once more with the documented `elements` argument (candidate elements "to speed up
+    # evaluation"): every element of the group, in reversed or shuffled order; grid: an integer-typed lattice of query points
+    return dict(recipe=r, para=para, warp=warp, ops=ops, deg=deg, coefs=coefs, queries=queries, allow_cluster=False,
+                elem_arg=draw(st.sampled_from([None, "reversed", "shuffled"])), elem_seed=draw(st.integers(0, 999)))
 
 
 def _drop_clusters(mesh, X, keep, dim):
@@ -606,6 +609,22 @@ def check_point_location(case, rec):
             if located[i]:
                 rec.close(vb[j] - single[i], scale_of(mt), tol_of(mt), "batch_equals_single",
                           f"{types}: batch {vb[j]} vs single {single[i]} at {pts[i].tolist()}", fam="value", **sig)
+    ea = case.get("elem_arg")
+    if ea and len(groups) == 1 and len(keep) >= 1:
+        Ne_ = int(groups[0].Ne)
+        order = np.arange(Ne_)[::-1].copy() if ea == "reversed" else np.random.default_rng(int(case.get("elem_seed", 0))).permutation(Ne_)
+        rec.label("elements_arg:" + ea)
+        ve = np.asarray(mesh.Evaluate_dofsValues_at_coordinates(pts[keep].copy(), vals_n, order), float)
+        rec.require(ve.shape == (len(keep), 2), "result_shape", f"{ve.shape}", mode="elements_arg", **base)
+        for j, i in enumerate(keep):
+            mt = meta[i]
+            sig = dict(base, shape=mt["shape"], kind=mt["kind"], geometry=mt["geometry"], near=mt["near"], mode="elements_arg")
+            oke = rec.require(ve[j, 1] != 0.0 or ve[j, 0] != 0.0, "located",
+                              f"{types}: query point {pts[i].tolist()} is not located when every element is given as a candidate ({ea})", **sig)
+            if oke:
+                rec.close(ve[j, 0] - exact[i], scale_of(mt), tol_of(mt), name_of(mt),
+                          f"{types}: elements argument = all {Ne_} elements {ea}: {ve[j, 0]!r} vs {exact[i]!r} at {pts[i].tolist()} ({mt['kind']})",
+                          fam="value", **sig)
     kinds = {mt["kind"] for mt in meta}
     rec.nontrivial(deg >= 1 and any(abs(v) > 0 for k, v in coefs.items() if k != "0,0,0") and bool(kinds - {"node"}))
 
@@ -706,6 +725,60 @@ def check_location_1d(case, rec):
                 rec.close(vb[j, 0] - exact[i], fscale, 1e-9, "value", f"{et}: batch of {len(keep)}: {vb[j, 0]!r} vs {exact[i]!r} at s={ss[i]!r}",
                           fam="value", **sg)
     rec.nontrivial(any(abs(c) > 0 for c in coefs[1:]) and any(k.startswith("in") for k in kinds))
+
+
+# ------------------------------------------------------------------------------------------
+# (c'') integer-typed query points: a lattice of points with integer coordinates (a pixel grid, or any hand-written list of
+# integer points) is a batch of points like any other - the same values as for the same points typed as floats
+
+
+def enum_lattice(tier):
+    for et in gm.T2D:
+        shape = cg.shape_of(et)
+        for organised in ((True,) if shape == "QUAD" else (False, True)):
+            for x0, y0 in ((0, 0), (2, 1), (-3, -1)):
+                for order in ("image", "x_major", "shuffled", "partial"):
+                    yield dict(elemType=et, organised=organised, x0=x0, y0=y0, nx=4, ny=3, order=order)
+
+
+def check_lattice(case, rec):
+    et = case["elemType"]
+    x0, y0, nx, ny = (int(case[k]) for k in ("x0", "y0", "nx", "ny"))
+    verts = [[x0, y0], [x0 + nx, y0], [x0 + nx, y0 + ny], [x0, y0 + ny]]
+    r = dict(verts=[[float(a), float(b)] for a, b in verts], h=1.0, elemType=et, organised=bool(case["organised"]), extrude=None, layers=0,
+             A=None, b=None, perm=None, orphans=0)
+    mesh = gm.build(r)
+    types = gm.mesh_types(mesh)
+    X = np.asarray(mesh.coord, float)
+    deg = gm.ORDER[et]
+    coefs = {",".join(map(str, e)): float(1 + (i % 3) - (i % 2) * 3) for i, e in enumerate(orc.monomials(2, deg))}
+    coefs = {k + ",0": v for k, v in coefs.items()}
+    p = lambda P: orc.poly_eval(coefs, P[:, 0], P[:, 1], P[:, 2])  # noqa
+    xs, ys = np.arange(x0, x0 + nx + 1), np.arange(y0, y0 + ny + 1)
+    if case["order"] == "x_major":
+        gx, gy = np.meshgrid(xs, ys, indexing="ij")
+    else:
+        gx, gy = np.meshgrid(xs, ys)  # image order: x runs fastest
+    P = np.column_stack([gx.ravel(), gy.ravel(), np.zeros(gx.size, dtype=int)]).astype(int)
+    if case["order"] == "shuffled":
+        P = P[np.argsort((P[:, 0] * 7 + P[:, 1] * 13) % 11, kind="stable")]
+    elif case["order"] == "partial":
+        P = P[::2]
+    sig = dict(elemType=et, types=types, origin="at_0" if (x0, y0) == (0, 0) else "offset", order=case["order"])
+    rec.label("lattice:" + types, "lattice:" + sig["origin"], "lattice:" + case["order"])
+    vals_n = np.stack([p(X), np.ones(mesh.Nn)], 1).ravel()
+    exact = p(P.astype(float))
+    fscale = float(np.abs(p(X)).max() + 1.0)
+    vf = np.asarray(mesh.Evaluate_dofsValues_at_coordinates(P.astype(float), vals_n), float)
+    vi = np.asarray(mesh.Evaluate_dofsValues_at_coordinates(P.copy(), vals_n), float)
+    rec.require(vi.shape == vf.shape == (P.shape[0], 2), "result_shape", f"{vi.shape} / {vf.shape}", **sig)
+    rec.close(vf[:, 0] - exact, fscale, 1e-6, "value_float_lattice", f"{types}: lattice points typed as floats", **sig)
+    nloc = int(np.sum((vi[:, 1] == 0.0) & (vi[:, 0] == 0.0)))
+    rec.require(nloc == 0, "located", f"{types}: {nloc} of the {P.shape[0]} integer-typed lattice points of the rectangle [{x0},{x0 + nx}]x[{y0},{y0 + ny}] "
+                f"({case['order']} order) are not located (the same points typed as floats are)", mode="integer_lattice", **sig)
+    rec.close(vi - vf, fscale, 1e-6, "integer_equals_float", f"{types}: degree-{deg} polynomial at integer-typed lattice points ({case['order']} "
+              f"order, origin ({x0},{y0})) differs from the same points typed as floats", **sig)
+    rec.nontrivial(True)
 
 
 # ------------------------------------------------------------------------------------------
@@ -849,7 +922,7 @@ def enum_location(tier):
                             w = [(3 * j + 5 * k + q * 7 + 2) % 16 for q in range(5)]
                             queries.append([j, ei, kind] + w)
                     yield dict(recipe=r, para=(gname == "para"), warp=None, ops=_OPS[ops], deg=deg, coefs=coefs,
-                               queries=queries, allow_cluster=False)
+                               queries=queries, allow_cluster=False, elem_arg="reversed", elem_seed=0)
 
 
 SUBS = [
@@ -863,5 +936,6 @@ SUBS = [
     Sub("location_types", check_point_location, enum=enum_location, doc="every element type x geometry x motion x query kind"),
     Sub("point_location_1d", check_location_1d, gen=location1d_cases, quick=80, thorough=800, shards=4),
     Sub("location_types_1d", check_location_1d, enum=enum_location1d, doc="SEG2..SEG5 x line direction (on the x axis in both senses, in the plane, in space) x motion"),
+    Sub("integer_lattice", check_lattice, enum=enum_lattice, doc="2D element type x lattice origin x ordering of the integer-typed query points"),
     Sub("projector", check_projector, gen=projector_cases, quick=100, thorough=600, shards=4),
 ]
